@@ -569,18 +569,27 @@ Section WithVars.
   Definition if_falls (b : ifbranch) : bool := match b with IfBranch _ body _ => falls_through body end.
   Definition case_falls (b : casebranch) : bool := match b with CaseBranch _ _ _ body _ => falls_through body end.
 
-  (* fn expression_block (672): every statement, then the last one once more as a value if it is an
-     expression statement *)
+  (* statements.split_last() in fn expression_block (since f1d69d9): the statements before a final expression
+     statement, and its expression; all the statements and None when the block does not end with an expression *)
+  Fixpoint block_split (l : list stmt) : list stmt * option expr :=
+    match l with
+    | [] => ([], None)
+    | [SStatementExpression value _] => ([], Some value)
+    | x :: xs => let '(i, v) := block_split xs in (x :: i, v)
+    end.
+
+  (* fn expression_block (700): the statements; a last expression statement is checked once, as the value of the
+     block (before f1d69d9 it went through fn statement too and every nesting level doubled the work) *)
   Definition expression_block (R : arec) (sp : span) (stmts : list stmt) (ctx : tctx)
     : M (option tyid * option tyid) :=
     r <- foldM (fun (acc : option tyid) (s : stmt) =>
-                  sr <- r_stmt R s ctx ;; unify_option G sp acc sr) stmts None ;;
-    match last_stmt stmts with
-    | Some (SStatementExpression value _) =>
+                  sr <- r_stmt R s ctx ;; unify_option G sp acc sr) (fst (block_split stmts)) None ;;
+    match snd (block_split stmts) with
+    | Some value =>
       '(vret, v) <- r_expr R value ctx ;;
       r' <- unify_option G sp r vret ;;
       ret (r', Some v)
-    | _ => ret (r, None)
+    | None => ret (r, None)
     end.
 
   (* macro bin_op! (89) *)
